@@ -77,12 +77,15 @@ def hCrash : Handler := fun impl => do
   | none =>
     -- key change of an existing entry: outside the compared model (see DESIGN C14); the probe
     -- oracle still judges every crash image
-    return { model := " ".intercalate impl, oracle := oracleOf impl, label := s!"kind{kind}:oracle-only" }
+    -- kinds 5, 6 (witness stream kf.C13-a.crash): the origin's body breaks off; finding C13-a's publish-then-delete window
+    let o := oracleOf impl
+    return { model := " ".intercalate impl, oracle := o, cls := if (kind = 5 ∨ kind = 6) ∧ o ≠ "ok" then "C13-a" else "-",
+             label := s!"kind{kind}:oracle-only" }
   | some (fs0, proto, points) =>
     let snaps := points.map fun (pt, k) => s!"{pt} {probePrediction kind (applyAll fs0 (proto.take k))}"
     let model := s!"200 {liveVersion kind} {points.length} " ++ " ".intercalate snaps
     return { model := model, oracle := oracleOf impl, label := s!"kind{kind}:chunks{n}" }
 
-def handlers : List (String × Handler) := [ ("crash", hCrash) ]
+def handlers : List (String × Handler) := [ ("crash", hCrash), ("kf.C13-a.crash", hCrash) ]
 
 end H.Crash
